@@ -35,6 +35,8 @@ for kind in ("HashMap", "HashSet", "PoolMap"):
         U("remove_key@cap3", "h_remove_key", "w_HashMap_removeKey", ["remove_key.second_in_chain", "remove_key.absent"], defs=["NV_CAP=3", "NDEBUG"] + KD, name=kind + ".remove_key@cap3",
           cbmc=["--unwind", "4", "--unwinding-assertions"], bound="bucket chain <= 2 nodes"),
     ]
+    UNITS += [U("clear.bounded", "h_b_clear", "w_HashMap_clear", ["b_clear.two_colliding", "b_clear.empty"], defs=["NV_CAP=3", "NDEBUG"] + KD, name=kind + ".clear.bounded", kind="bounded",
+                bound="order list of at most 2 items (colliding or in two buckets), capacity 3", cbmc=["--unwind", "4", "--unwinding-assertions"])]
     if kind == "PoolMap":
         UNITS += [U("remove_value", "h_remove", "w_PoolMap_removeValue", ["remove.mid_chain", "remove.only_in_bucket"], defs=RD + ["NV_RM_MODE=3"], name="PoolMap.remove_value")]
 for kind in ("HashMap", "HashSet"):
@@ -50,6 +52,7 @@ ASSUMPTIONS = [
     "capacity 1 (every key collides) and 3; order list, free list and other buckets are arbitrary -- these two units are proofs relative to that chain bound",
     "remove(iterator), removeFront(), removeBack(), PoolMap::remove(const V&) (node computed from the element address), swap(other): no bound; remove(key): chain <= 2 nodes, absent key changes nothing (no loop); swap is checked for two distinct tables with symbolic size, capacity, bucket array, free list and first/last items",
     "hash(long) = (usize)value as in Base.hpp",
+    "clear(): bounded stand-in, order list of at most 2 items unwound (no list-segment loop invariant)",
     "assignment of a table to itself is checked on tables of at most 1 entry (bounded units; assignment from another table exceeds cbmc's memory); whole-table agreement with a reference insertion-ordered map over operation histories is NOT checked (a bounded harness exists in harness/hashmap.cpp, h_b_history, but cbmc returns solver errors on it); it follows from the step contracts by induction over operations (paper)",
 ]
 EXPLANATION = "Step contracts for HashMap insert/remove/find with exact frames over symbolic neighbourhoods; bounded history check against a reference map."
